@@ -305,6 +305,12 @@ def run_case(desc):
             else:
                 target = plan
                 snap_t = None
+                form = rng.choice(["plan", "plan", "graph", "tuple"]) if op == "render" else "dry"
+                if form == "graph":
+                    target = plan.graph  # render also accepts the bare graph
+                elif form == "tuple":
+                    calls_ = [n_ for n_ in plan.graph.nodes() if hasattr(n_, "fn")]
+                    target = (plan, rng.choice(calls_)) if calls_ else plan  # ... and a (plan, output node) pair
                 if op == "render_dry":
                     target = uberjob.run(plan, **kw, dry_run=True)
                     snap_t = snapshot.plan_snapshot(target[0])
@@ -319,7 +325,7 @@ def run_case(desc):
                     rexc = e
                     detail["render_raised"] = repr(e)[:120]
                 counters["renders"] = 1
-                bad = compare(f"render(level={level}, format={fmt}, predicate={'yes' if pred else 'no'})")
+                bad = compare(f"render({form} form, level={level}, format={fmt}, predicate={'yes' if pred else 'no'})")
                 if bad is None and snap_t is not None:
                     counters["snapshots_compared"] += 1
                     d = snapshot.diff(snap_t, snapshot.plan_snapshot(target[0]))
@@ -374,6 +380,7 @@ def run_case(desc):
                             bad = f"concurrent runner {j} (up-to-date registry) returned {irmod.canon(results[j])[:120]}, expected {irmod.canon(want)[:120]}"
                             break
         elif op == "copies":
+            leak = None
             p2 = plan.copy()
             s2 = snapshot.plan_snapshot(p2)
             # mutate the copy
@@ -384,13 +391,27 @@ def run_case(desc):
             # (calls and literals, scoped and unscoped) as explicit arguments, positionally, by keyword and inside containers
             with p2.scope("built-on-the-copy", rng.randint(0, 3)):
                 picks = rng.sample(some, min(len(some), 4))
+                # (while a scope is open on the COPY, a call added to the original gets the original's scope - none - and the other way round below)
+                probe = plan.call(_anyargs)
+                if probe.scope != ():
+                    leak = f"a call added to the original while a scope was open on its copy got the scope {probe.scope!r}"
+                plan.graph.remove_node(probe)
                 p2.call(_anyargs, *picks, k=picks[0])
                 p2.gather([picks, {"k": picks[-1]}, (picks[0],)])
                 for nd_ in picks[:2]:
                     p2.call(_anyargs, nd_)
             if rng.random() < 0.5 and len(some) > 1:
                 p2.graph.remove_node(some[1])
-            bad = compare("mutating Plan.copy()")
+            bad = compare("mutating Plan.copy()") or (f"Plan.copy() is not independent of its original: {leak}" if leak else None)
+            if bad is None:
+                with plan.scope("open-on-the-original"):
+                    p4 = plan.copy()
+                    with p4.scope("inner-on-the-copy"):
+                        c4 = p4.call(_anyargs)
+                    c5 = p4.call(_anyargs)
+                    if c4.scope != ("inner-on-the-copy",) or c5.scope != ():
+                        bad = (f"a copy made while a scope was open on the original does not start with an empty scope of its own: calls added to it got "
+                               f"{c4.scope!r} (inside its own scope block) and {c5.scope!r} (outside)")
             if bad is None:
                 # mutate the original, the (second) copy must not change
                 p3 = plan.copy()
